@@ -29,6 +29,10 @@ fn tok_profile(profile: &str, seed: u64, n: usize, out: &mut dyn Write) {
             "c11" => cfg.big_homographs = true,
             "c07tok" => cfg.kind = Some(1 + rng.below(2) as u8),
             "c01" => cfg.kind = if rng.chance(1, 3) { None } else { Some(0) },
+            "c06" | "c08" => {
+                cfg.kind = if rng.chance(1, 2) { None } else { Some(0) };
+                cfg.max_ids = 6;
+            }
             "mixed" => cfg.kind = None,
             _ => {}
         }
@@ -112,6 +116,13 @@ fn tok_profile(profile: &str, seed: u64, n: usize, out: &mut dyn Write) {
                     }
                 }
                 "c12" => {
+                    // half of the families carry a user lexicon (surfaces free of spaces, as the precondition demands)
+                    if crng.chance(1, 2) {
+                        let mut pool = d.surfaces.clone();
+                        let nrows = 1 + crng.below(4);
+                        let csv = gen::gen_lex_rows(&mut crng, nrows, d.num_left, d.num_right, 40, false, &mut pool);
+                        dops.push(DOp::User(csv.into_bytes()));
+                    }
                     // one family: the same segments re-spaced in several ways
                     let nseg = crng.below(4);
                     let mut segs: Vec<String> = vec![];
@@ -151,7 +162,24 @@ fn tok_profile(profile: &str, seed: u64, n: usize, out: &mut dyn Write) {
                     }
                 }
                 "c06" | "c08" | "c05" => {
-                    let k = 1 + crng.below(4);
+                    let mut k = 1 + crng.below(4);
+                    if profile == "c06" && crng.chance(1, 3) {
+                        // structured: several mappings (likely non-commuting), then a user lexicon, maybe a round trip
+                        k = 0;
+                        for _ in 0..2 + crng.below(2) {
+                            dops.push(DOp::Map(gen_perm(&mut crng, d.num_left), gen_perm(&mut crng, d.num_right)));
+                            if crng.chance(1, 4) {
+                                dops.push(DOp::WriteRead);
+                            }
+                        }
+                        let mut pool = d.surfaces.clone();
+                        let nrows = 2 + crng.below(4);
+                        let csv = gen::gen_lex_rows(&mut crng, nrows, d.num_left, d.num_right, 40, true, &mut pool);
+                        dops.push(DOp::User(csv.into_bytes()));
+                        if crng.chance(1, 3) {
+                            dops.push(DOp::Map(gen_perm(&mut crng, d.num_left), gen_perm(&mut crng, d.num_right)));
+                        }
+                    }
                     for _ in 0..k {
                         match crng.below(if profile == "c08" { 3 } else { 6 }) {
                             0 | 1 => {
@@ -196,8 +224,12 @@ fn tok_profile(profile: &str, seed: u64, n: usize, out: &mut dyn Write) {
                             dops.push(DOp::Map(gen_perm(&mut crng, d.num_left), gen_perm(&mut crng, d.num_right)));
                         }
                     }
-                    let s = gen_sentence(&mut crng, &d, &cfg, 7);
-                    wops.extend([WOp::Reset(s), WOp::Tokenize, WOp::QueryTokens, WOp::Lattice]);
+                    // one third of the cases reuse the worker for several sentences
+                    let nsent = if crng.chance(1, 3) { 2 + crng.below(2) } else { 1 };
+                    for _ in 0..nsent {
+                        let s = gen_sentence(&mut crng, &d, &cfg, 7);
+                        wops.extend([WOp::Reset(s), WOp::Tokenize, WOp::QueryTokens, WOp::Lattice]);
+                    }
                 }
             }
             let line = tok::case_line(&id, &dname, dict, &dops, ign, maxg, &wops);
